@@ -121,5 +121,14 @@ PROPS["C06"] = {
     "note": "Trusts my transcription of the CommonMark HTML mapping in Spec.denoteDoc and of the canonical style in Spec.ser, and golang.org/x/net/html's tokenizer for the token-canonical comparison. Tabs as indentation and link titles spanning lines are not yet among the serialiser's choices.",
 }
 
+PROPS["C20"] = {
+    "modules": ["CM.Props.C20"],
+    "level": "other",
+    "design_ref": "DESIGN.md §6 C20, §7",
+    "technique": "Lean 4 theorems about the formatter's writer model (fw_sticky, format_first_error: every operation sequence, every failure point) + op-sequence correspondence of the real formatWriter with the model + relational oracles on the implementation for totality/determinism/read-only/failing writers (clause 1) and for the round trip on canonical documents of the supported set generated from the Lean specification (clause 2)",
+    "text": "Model.fwS/fwPush/fwPop model format.go's formatWriter (indent stack, startedLine, hasWritten, sticky err, writeStrings, writeTrimmedIndent) over a scripted writer; format_first_error proves for every sequence of writer operations and every failure index that either no issued write has failed and err is unset, or err is set and the failing write is the last one issued; fw_sticky that s is a no-op once err is set. The model is tied to the real formatWriter (through a verif-tagged driver) on random operation sequences with failing writers. The rest of clause 1 (Format returns on every tree, is deterministic with and without WriteString, leaves tree and Source unchanged, returns exactly the writer's first error for every failure index up to 40/200) and clause 2 (for canonical documents in Spec.inFDoc, the formatted text renders like the source and is a fixed point of Format) are decided by running the implementation on the general document stream and on documents generated by Spec.DocGen. No theorem covers the formatting callbacks themselves, hence 'other'.",
+    "note": "The supported construct set is Spec.inFDoc (DESIGN.md §7): tight lists with a single paragraph per item, no definition needing <...>, no title containing a double quote, no line starting with + or digits followed by . or ). Clause 2 compares renderings token-canonically.",
+}
+
 NOT_APPLICABLE = {
 }
